@@ -213,4 +213,60 @@ theorem checkSigsLoop_complete (verify : SigSlot → Bool) (thr : Nat) (slots : 
       · exact Or.inl h2
       · right; simp [hv, h2]
 
+/-! ## Part D -/
+
+theorem vRun_validateProg (tron : Bool) (recoverBy : String → List Nat → List Nat → Option String) (st : HState)
+    (m : ConfirmMsg) (digest : List Nat) :
+    vRun tron recoverBy st m digest validateProg {} = validateSpec (recoverBy (validatorOf tron)) st m digest := by
+  unfold validateSpec
+  cases hs : m.sig with
+  | none => cases tron <;> simp [validateProg, vRun, vStep, vCond, vStr, errOfText, condHolds, tronCond, hs]
+  | some sig =>
+    cases hx : st.byExternal.lookup m.external with
+    | none => cases tron <;> simp [validateProg, vRun, vStep, vCond, vStr, errOfText, condHolds, tronCond, hs, hx]
+    | some oracle =>
+      cases ho : st.oracles.lookup oracle with
+      | none => cases tron <;> simp [validateProg, vRun, vStep, vCond, vStr, errOfText, condHolds, tronCond, hs, hx, ho]
+      | some r =>
+        by_cases h1 : r.external = m.external
+        · have e1 : (r.external != m.external) = false := by simp [h1]
+          by_cases h2 : r.bridger = m.bridger
+          · have e2 : (r.bridger != m.bridger) = false := by simp [h2]
+            by_cases h3 : recoverBy (validatorOf tron) digest sig = some r.external
+            · cases tron <;> simp_all [validateProg, vRun, vStep, vCond, vStr, errOfText, condHolds, tronCond, validatorOf]
+            · cases tron <;> simp_all [validateProg, vRun, vStep, vCond, vStr, errOfText, condHolds, tronCond, validatorOf]
+          · have e2 : (r.bridger != m.bridger) = true := by simp [h2]
+            cases tron <;> simp [validateProg, vRun, vStep, vCond, vStr, errOfText, condHolds, tronCond, hs, hx, ho, e1, e2, h1, h2]
+        · have e1 : (r.external != m.external) = true := by simp [h1]
+          cases tron <;> simp [validateProg, vRun, vStep, vCond, vStr, errOfText, condHolds, tronCond, hs, hx, ho, e1, h1]
+
+theorem confirmStepPV_eq_confirmStepP (P : Plan) (tron : Bool) (recoverBy : String → List Nat → List Nat → Option String)
+    (st : HState) (m : ConfirmMsg) :
+    confirmStepPV P validateProg tron recoverBy st m = confirmStepP P (recoverBy (validatorOf tron)) st m := by
+  unfold confirmStepPV confirmStepP
+  cases hf : findObject P.kind st m.key P.lookups with
+  | none => rfl
+  | some p =>
+    obtain ⟨fk, digest⟩ := p
+    simp only [vRun_validateProg, validateSpec]
+    cases m.sig with
+    | none => rfl
+    | some sig =>
+      simp only
+      cases st.byExternal.lookup m.external with
+      | none => rfl
+      | some oracle =>
+        simp only
+        cases st.oracles.lookup oracle with
+        | none => rfl
+        | some r =>
+          simp only
+          by_cases h1 : r.external ≠ m.external
+          · simp [h1]
+          · by_cases h2 : r.bridger ≠ m.bridger
+            · simp [h1, h2]
+            · by_cases h3 : recoverBy (validatorOf tron) digest sig ≠ some r.external
+              · simp [h1, h2, h3]
+              · simp [h1, h2, h3] <;> rfl
+
 end FxVerif.Model.C12
